@@ -55,7 +55,12 @@ def gen_type(rng, depth):
     if r < 0.2:
         return T.option(T.option(G.gen_type(rng, 1)))
     if r < 0.27:
-        return T.pair(T.big_map(G.gen_type(rng, 1, 'comparable'), G.gen_type(rng, 1)), G.gen_type(rng, 1))
+        bm = T.big_map(G.gen_type(rng, 1, 'comparable'), G.gen_type(rng, 1))
+        other = G.gen_type(rng, 1)
+        # big_map literals at every position a storage may hold them: record field, union variant, option, nested record in a variant
+        return rng.choice([lambda: T.pair(bm, other), lambda: T.pair(other, bm), lambda: T.or_(bm, other), lambda: T.or_(other, bm),
+                           lambda: T.option(bm), lambda: bm, lambda: T.pair(T.or_(T.pair(bm, T.NAT), T.UNIT), other),
+                           lambda: T.or_(T.option(bm), T.pair(other, bm))])()
     return G.gen_type(rng, depth, 'packable')
 
 
@@ -72,8 +77,8 @@ def layout_names(cls, out, path='$'):
             layout_names(a, out, '%s.%d' % (path, i))
 
 
-def judge(ctx, t, v, annot_seed):
-    an = None
+def judge(ctx, t, v, annot_seed, annot=None):
+    an = annot
     if annot_seed is not None:
         an = safe_annot(random.Random(annot_seed))
         annotate(t, an)
@@ -282,6 +287,13 @@ def run(ctx):
         t = gen_type(rng, rng.randint(0, ctx.pick(3, 4)))
         v = G.gen_value(rng, t)
         judge(ctx, t, v, rng.getrandbits(32) if i % 2 else None)
+    # recorded arguments and storage parts of the mainnet corpus under their real annotated types (records with named fields,
+    # entrypoint unions, maps of records)
+    from rv.gen import corpus as C
+    for k, (label, texpr, t, v, src) in enumerate(C.typed_values()):
+        if ctx.mine(k) and T.packable(t):
+            ctx.count('corpus_values')
+            judge(ctx, t, v, None, C.annot_fn(texpr))
     ctx.require('python_roundtrips', 100)
     ctx.require('contract_data_roundtrips', 50)
     ctx.require('layouts_checked', 50)
@@ -300,4 +312,5 @@ def replay(ctx, case):
         return o
     t = T.from_micheline(strip(case['type_expr']))
     v = P.parse(case['value'], t)
-    judge(ctx, t, v, case.get('annot_seed'))
+    from rv.gen import corpus as C
+    judge(ctx, t, v, case.get('annot_seed'), C.annot_fn(case['type_expr']) if case.get('annot_seed') is None else None)
